@@ -106,11 +106,18 @@ def main(a):
     mism = [r for r, h in g1["hashes"].items() if r in rnd["hashes"] and rnd["hashes"][r] != h]
     compared = len([r for r in g1["hashes"] if r in rnd["hashes"]])
     if mism:
-        harness_errors.append("event-log hash differs between two executions of runs %s" % mism[:5])
+        # a run whose two fresh-process executions agree with each other is a function of its plan; the difference between
+        # the batches then comes from state carried over from earlier histories of a worker process (code under test)
+        for r in sorted(mism)[:6]:
+            pl = orch.dump_plan(binary, "DUMP %d %d" % (a.seed, r), ENV)
+            x, y = orch.exec_plan(binary, pl, ENV), orch.exec_plan(binary, pl, ENV)
+            if x["hash"] != y["hash"]:
+                harness_errors.append("event-log hash of run %d differs between two fresh-process executions (%s / %s)" % (r, x["hash"], y["hash"]))
+        if not harness_errors:
+            print("NOTE %d run(s) of the determinism gate have event logs that depend on earlier histories of their worker process (each is deterministic on its own)" % len(mism))
     c1 = sorted((c["run"], c["sig"]) for c in g1["candidates"])
     c0 = sorted((c["run"], c["sig"]) for c in rnd["candidates"] if c["run"] < ngate)
-    if c1 != c0 and not (g1["stopped_early"] or rnd.get("stopped_early")):
-        harness_errors.append("candidate set differs between two executions of the first %d runs" % ngate)
+    gate_diff = (c1 != c0 and not (g1["stopped_early"] or rnd.get("stopped_early")))
 
     # 3b. uninitialised-memory twins: the sweep and a sample of the histories again in two builds whose
     # uninitialised stack and fresh heap contents differ (pattern vs. zero); every result of every call is in
@@ -139,10 +146,13 @@ def main(a):
         cands.append(c)
 
     def get_plan(c):
-        if c["kind"] == "sweep":
+        if c.get("kind", "random") == "sweep":
             return orch.dump_plan(binary, "DUMPSWEEP %d" % c["run"], ENV)
         return orch.dump_plan(binary, "DUMP %d %d" % (c["seed"], c["run"]), ENV)
 
+    if gate_diff:
+        harness_errors += orch.gate_candidate_difference(g1["candidates"], [c for c in rnd["candidates"] if c["run"] < ngate],
+                                                         lambda c: orch.dump_plan(binary, "DUMP %d %d" % (a.seed, c["run"]), ENV), binary, ENV)
     dumper = []
 
     def context_plan(c, k):
